@@ -17,7 +17,6 @@ OUTS = "(Vec<ReadPlan>, usize, usize)"
 UNIT = dict(
     name="batch_read_plan",
     props=["C03", "C01", "C02", "C12"],
-    implicit_props=["C03", "C11"],
     prelude=["core_types.rs", "engine.rs"],
     assumptions=[
         "context W (well-formed bytes), A-IO (positional reads inside the file are complete), A-ARITH",
@@ -50,6 +49,8 @@ UNIT = dict(
                  ("C03,C01:plan_first_range_covers_first_unconsumed_entry", "(start_offset is None && sealed_unconsumed(chain@, cur_idx_in as int, cur_off_in)) ==> ret.0.len() > 0 && first_covers(ret.0[0])"),
                  ("C03:plan_nonempty_when_sealed_data_unconsumed", "sealed_unconsumed(chain@, cur_idx_in as int, cur_off_in) ==> ret.0.len() > 0"),
                  ("C01:plan_ranges_ordered_and_inside_blocks", "plan_ordered(ret.0@, chain@, cur_idx_in as int)"),
+                 ("C01:plan_leaves_no_gap", "no_gap(ret.0@, chain@, cur_idx_in as int, cur_off_in, ret.2 as int)"),
+                 ("C01:plan_tail_only_after_whole_chain", "(ret.0.len() > 0 && ret.0@.last().is_tail) ==> ret.2 >= chain.len()"),
                  ("C03:plan_ranges_at_most_one_gib", "forall|k: int| 0 <= k < ret.0.len() ==> (#[trigger] ret.0[k]).start < ret.0[k].end && ret.0[k].end - ret.0[k].start <= 0x4000_0000 && ret.0[k].end <= 0x4000_0000"),
                  ("C02,C12:plan_marks_only_when_stateful", "info_guard is None ==> *final(globals) == *old(globals)"),
              ],
@@ -57,12 +58,14 @@ UNIT = dict(
                  dict(after="aligned_peek_meta.extend_from_slice(&meta_buf[2..2 + meta_len]);",
                       text="                        proof { assert(aligned_peek_meta@ =~= disk(block.mmap.file).subrange(block.offset + cur_off + 2, block.offset + cur_off + 2 + meta_len)); }"),
                  dict(before="            if end > cur_off {", text="            let ghost plan0 = plan@;"),
+                 dict(before="                if tail_start < written {", text="                let ghost plan1 = plan@;"),
+                 dict(after="                        chain_idx: None,\n                    });", text="                    proof { lemma_no_gap_push_any(plan1, chain@, cur_idx_in as int, cur_off_in, cur_idx as int, plan@.last()); }"),
                  dict(after="                    chain_idx: Some(cur_idx),\n                });",
-                      text="                proof { lemma_plan_push(plan0, chain@, cur_idx_in as int, cur_idx, plan@.last()); }"),
-                 dict(before="            cur_idx += 1;\n            cur_off = 0;\n        }",
-                      text="            proof { if plan@ == plan0 { lemma_plan_upto_mono(plan0, chain@, cur_idx_in as int, cur_idx as int, cur_idx + 1); } }"),
+                      text="                proof { lemma_plan_push(plan0, chain@, cur_idx_in as int, cur_idx, plan@.last()); lemma_no_gap_push(plan0, chain@, cur_idx_in as int, cur_off_in, cur_idx as int, plan@.last()); }"),
+                 dict(loop_body_end=0,
+                      text="            proof { if plan@ == plan0 && cur_idx >= 1 { lemma_plan_upto_mono(plan0, chain@, cur_idx_in as int, cur_idx - 1, cur_idx as int); lemma_no_gap_skip_if(plan0, chain@, cur_idx_in as int, cur_off_in, cur_idx - 1); } }"),
                  dict(before="                continue;\n            }\n\n            let mut want",
-                      text="                proof { lemma_plan_upto_mono(plan@, chain@, cur_idx_in as int, cur_idx - 1, cur_idx as int); }"),
+                      text="                proof { lemma_plan_upto_mono(plan@, chain@, cur_idx_in as int, cur_idx - 1, cur_idx as int); lemma_no_gap_skip_if(plan@, chain@, cur_idx_in as int, cur_off_in, cur_idx - 1); }"),
              ],
              loops={
                  0: dict(kind="while", invariant=[
@@ -76,6 +79,8 @@ UNIT = dict(
                      ("C03:plan_ranges_at_most_one_gib", "forall|k: int| 0 <= k < plan.len() ==> (#[trigger] plan[k]).start < plan[k].end && plan[k].end - plan[k].start <= 0x4000_0000 && plan[k].end <= 0x4000_0000"),
                      ("C03:plan_nonempty_when_sealed_data_unconsumed", "plan.len() == 0 ==> (planned_bytes == 0 && (sealed_unconsumed(chain@, cur_idx_in as int, cur_off_in) ==> sealed_unconsumed(chain@, cur_idx as int, cur_off)))"),
                      ("C02,C12:plan_marks_only_when_stateful", "info_guard is None ==> *globals == *old(globals)"),
+                     ("C01:plan_leaves_no_gap", "no_gap(plan@, chain@, cur_idx_in as int, cur_off_in, cur_idx as int)"),
+                     ("C01:plan_cursor_offset_only_applies_to_first_block", "(cur_idx == cur_idx_in ==> cur_off == cur_off_in) && (cur_idx > cur_idx_in ==> cur_off == 0)"),
                      ("", "plan.len() == 0 ==> packed_chain(chain@, cur_idx as int, cur_off)"),
                      ("", "plan.len() > 0 ==> planned_bytes > 0 && cur_off == 0"),
                      ("C03,C01:plan_first_range_covers_first_unconsumed_entry", "(start_offset is None && plan.len() > 0) ==> first_covers(plan[0])"),
